@@ -165,6 +165,15 @@ def _t(chip, *children):
     return (chip, list(children))
 
 
+def _chain(chips, hops, last):
+    """A chain of chips joined by the hops given, ending in the child
+    `last`."""
+    node = _t(chips[-1], last)
+    for chip, hop in zip(reversed(chips[:-1]), reversed(hops)):
+        node = _t(chip, (hop, node))
+    return node
+
+
 SCENARIOS = {
     # two chains meeting on (1,0) and continuing together
     "merge": [
@@ -201,6 +210,17 @@ SCENARIOS = {
         _t((0, 0), ("west", V),
            ("north", _t((0, 1), (1, V), ("south_west", V)))),
         _t((0, 1), ("south_west", V), (1, V)),
+    ],
+    # leaves over every one of the six links (Routes.east has the value 0)
+    # and on the first and last core, on a root and on a chip entered by a
+    # link; hops over every link
+    "every-direction": [
+        _t((3, 3), ("east", V), ("north_east", V), ("north", V), ("west", V),
+           ("south_west", V), ("south", V), (0, V), (17, V)),
+        _t((2, 3), ("east", _t((3, 3), ("east", V), (0, V)))),
+        _chain([(0, 0), (1, 0), (2, 1), (2, 2), (1, 2), (0, 1)],
+               ["east", "north_east", "north", "west", "south_west"],
+               ("south", V)),
     ],
     # a five-node chain joined at its third node; a disjoint tree
     "chain5": [
@@ -438,6 +458,11 @@ class FastMemory(Memory):
         else:
             self.symbolic = True
             self.writes.append((addr, byte))
+
+    def store_run(self, addr, n, pattern):
+        # (no run-length records here: every byte goes through store)
+        for i in range(n):
+            self.store(addr + i, pattern[i % len(pattern)])
 
     @property
     def touched(self):
@@ -1167,7 +1192,8 @@ def _units(tier, seed):
            "differ-late": ("multisource-error",),
            "none-leaves": ("merged",),
            "three": ("merged", "multisource-error"),
-           "link-leaf": ("merged",), "chain5": ("merged",)}
+           "link-leaf": ("merged",), "chain5": ("merged",),
+           "every-direction": ()}
     for name in sorted(SCENARIOS):
         us.append(Unit("trees %s" % name, h_trees, dict(scenario=name),
                        split=3 if len(SCENARIOS[name]) > 2 else 0,
